@@ -28,3 +28,20 @@ package util
     serves C06, C05, C19
     ensures result == ((char >= 'A' && char <= 'Z') || (char >= 'a' && char <= 'z') || char == '_')
 @*/
+
+// identChar: a character that may follow the first one in an identifier.
+func identChar(c byte) bool {
+	return (c >= 'A' && c <= 'Z') || (c >= 'a' && c <= 'z') || c == '_' || (c >= '0' && c <= '9')
+}
+
+// The printers leave a name unquoted only when IsIdent says so (C19): a
+// positive answer must mean the text lexes as one identifier.
+
+/*@ func IsIdent
+    serves C19
+    ensures @sound result ==> len(test) > 0 && ((test[0] >= 'A' && test[0] <= 'Z') || (test[0] >= 'a' && test[0] <= 'z') || test[0] == '_') && forall i in 1..len(test) :: identChar(test[i])
+    ensures @empty-is-not len(test) == 0 ==> !result
+    loop 1 invariant 1 <= i && i <= len(test)
+    loop 1 invariant forall j in 1..i :: identChar(test[j])
+    loop 1 decreases len(test) - i
+@*/
